@@ -354,8 +354,10 @@ class PLSSDesc:
         # Preprocessed description set to .orig_desc until parsed.
         self.pp_desc = self.orig_desc
 
-        # If layout was specified as kwarg, use that:
-        self.layout = layout
+        # If layout was specified as kwarg, use that (otherwise keep
+        # whatever `config` may have specified):
+        if layout is not None:
+            self.layout = layout
         # Track whether the layout was dictated by the user.
         self.layout_specified = False
         if self.layout is not None:
@@ -640,6 +642,9 @@ class PLSSDesc:
 
         # ----------------------------------------
         # Lock down parameters for this parse.
+
+        if layout is None:
+            layout = self.layout
 
         require_colon = self.require_colon
         if sec_colon_required is not None:
